@@ -16,8 +16,8 @@ LEVEL = "exploration"
 RULE = ("Hypothesis-generated table / multi-section recipes (1-6 columns, 0-40 rows, str/int/float with nulls, "
         "leading/trailing blanks, dictionary words, wrapping cells; nrow 1-50; plain / page_by (new_page T/F, "
         "pageby_row column/first_row, nested, dividers) / subline_by / subline_by+page_by; all header modes, "
-        "footnote/source variants; text_convert on with trigger-free alphabet or off with ^ _ >= <=) plus an "
-        "exhaustive sweep rows 0..24 x nrow 1..12 x 6 strategies. Oracle: parsed data rows of all pages "
+        "footnote/source variants; text_convert on with trigger-free alphabet, off with ^ _ >= <=, or per original column with the trigger characters in the verbatim columns only) plus an "
+        "exhaustive sweep rows 0..24 x nrow 1..12 x 6 strategies, and a sweep over every placement of two consumed columns among five x every per-column text_convert vector. Oracle: parsed data rows of all pages "
         "concatenated == DataFrame rows (display text, null->'') restricted to displayed columns, both "
         "directions. Non-trivial = >=2 pages, or >=1 removed column, or >=2 sections; distinct by sha1 of recipe.")
 ASSUMPTIONS = [
@@ -30,12 +30,15 @@ CFG_ON = gen.Cfg(max_cols=6, max_rows=40, nrow_range=(1, 50), allow_group_by=Fal
                  as_colheader_false=False, long_text=0.2)
 CFG_OFF = replace(CFG_ON, alphabet=gen.ALPHA_CONVERT_OFF, convert_off_body=True)
 CFG_SMALL = replace(CFG_ON, max_rows=14, nrow_range=(1, 9))
+# text_convert per original column: verbatim columns carry ^ _ >= <=, converting columns (and the group keys) do not
+CFG_PERCOL = replace(CFG_SMALL, convert_per_column=True, max_page_by=3)
 
 
 def strategy(tier):
     return st.one_of(
         gen.table_recipe(CFG_SMALL), gen.table_recipe(CFG_SMALL), gen.table_recipe(CFG_ON),
         gen.table_recipe(CFG_OFF), gen.multi_recipe(CFG_SMALL), gen.multi_recipe(replace(CFG_SMALL, multi_grouping=True)),
+        gen.table_recipe(CFG_PERCOL),
     )
 
 
@@ -51,6 +54,36 @@ def enumerate_cases(tier):
         for nrow in nrows:
             for s in strategies:
                 yield sweep_case(n, nrow, s)
+    # per-column text_convert x every placement of two consumed columns among five x every flag vector
+    import itertools
+    for (a, b), mode in itertools.product(itertools.permutations(range(5), 2), ("nested", "subline+page_by")):
+        for k, flags in enumerate(itertools.product((True, False), repeat=5)):
+            if tier == "quick" and (k + a + b) % 2:
+                continue
+            yield percol_case(a, b, mode, list(flags))
+
+
+TRIGGERS = ["kg/m^2", "log_10", "x>=65", "y<=18", "x_i^2"]
+
+
+def percol_case(a, b, mode, flags, n=5, ncol=5):
+    cols = []
+    for j in range(ncol):
+        if j == a:
+            vals = [f"@G0:v{i // 3}" for i in range(n)] if mode == "nested" else [f"@B0:v{i // 3}" for i in range(n)]
+        elif j == b:
+            vals = [f"@G{1 if mode == 'nested' else 0}:v{i // 2}" for i in range(n)]
+        else:
+            vals = [f"r{i}c{j}" + ("" if flags[j] else " " + TRIGGERS[(i + j) % len(TRIGGERS)]) for i in range(n)]
+        cols.append({"name": f"@N{j}", "dtype": "str", "values": vals})
+    body = {"text_convert": flags}
+    if mode == "nested":
+        body["page_by"] = [f"@N{a}", f"@N{b}"]
+    else:
+        body["subline_by"] = [f"@N{a}"]
+        body["page_by"] = [f"@N{b}"]
+    return {"kind": "table", "page": {"nrow": 12}, "sections": [{"df": {"cols": cols}, "body": body, "headers": "default"}],
+            "sweep": ["percol", a, b, mode]}
 
 
 def sweep_case(n, nrow, strat):
@@ -98,7 +131,7 @@ def check(case) -> Result:
     npages = len(pages)
     body = case["sections"][0].get("body", {})
     res.labels = [pages_label(npages), f"sections={len(case['sections'])}", f"removed_cols={min(removed, 2)}",
-                  "strategy=" + strategy_name(body), f"convert={'off' if body.get('text_convert') is False else 'on'}"]
+                  "strategy=" + strategy_name(body), f"convert={'off' if body.get('text_convert') is False else 'per_column' if isinstance(body.get('text_convert'), list) else 'on'}"]
     res.nontrivial = npages >= 2 or removed >= 1 or len(case["sections"]) >= 2
     return res
 
